@@ -11,8 +11,6 @@ pub fn hazmat(cx: &mut Ctx, args: &Args, rng: &mut Rng) -> i32 {
     use cipher::Array;
     let n = args.num("n", 20) as usize;
     cx.reset("hazmat");
-    let force_off = args.get("force-off") == Some("1");
-    set_force_off(force_off);
     let blocks = mix(rng, 16, n);
     let keys = mix(rng, 16, n);
     for (i, (_, b)) in blocks.iter().enumerate() {
@@ -72,7 +70,6 @@ pub fn hazmat(cx: &mut Ctx, args: &Args, rng: &mut Rng) -> i32 {
             cx.emit(v);
         }
     }
-    set_force_off(false);
     cx.end();
     0
 }
